@@ -155,6 +155,55 @@ def oracle_generic(ck, rng):
                          inp={"iteration": i, "seed": ck.seed, "n": nm, "n_set": nset}, key={"site": "generic"}, oracle="generic_average_and_split")
 
 
+def oracle_batch_histories(ck, rng):
+    """a batch built by any sequence of add_tomogram (explicit and automatic ids) / filter: its average is the count-weighted
+    mean of independently built per-tomogram loaders over the molecules still in it"""
+    import polars as pl
+    from acryo import SubtomogramLoader, BatchLoader, Molecules
+    n = 6 if ck.tier == "quick" else 60
+    for it in range(n):
+        b = BatchLoader(order=1, output_shape=(3, 3, 3))
+        truth = []          # (tomogram, positions) still in the batch, tagged with a unique marker per addition
+        hist = []
+        nadd = int(rng.integers(2, 5))
+        for a_ in range(nadd):
+            tomo = rng.normal(size=(10, 10, 10)).astype(np.float32) + 5.0 * (a_ + 1)
+            nm = int(rng.integers(1, 4))
+            pos = rng.integers(3, 7, size=(nm, 3)).astype(float)
+            mark = 100 * it + a_
+            mol = Molecules(pos, features={"mark": [mark] * nm})
+            explicit = [None, None, int(rng.integers(0, 6))][int(rng.integers(0, 3))] if it % 2 else None
+            if explicit is not None and explicit in b.images:
+                explicit = None
+            b.add_tomogram(tomo, mol, image_id=explicit)
+            hist.append(["add_tomogram", nm, explicit])
+            truth.append((tomo, pos, mark))
+            if a_ >= 1 and rng.random() < 0.6:
+                # drop every molecule of one earlier addition (its tomogram leaves the batch)
+                drop = truth[int(rng.integers(0, len(truth) - 1))][2]
+                b = b.filter(pl.col("mark") != drop)
+                truth = [t_ for t_ in truth if t_[2] != drop]
+                hist.append(["filter-out", drop])
+        if not truth:
+            continue
+        want = np.zeros((3, 3, 3)); cnt = 0
+        for tomo, pos, mark in truth:
+            ld = SubtomogramLoader(tomo, Molecules(pos), order=1, output_shape=(3, 3, 3))
+            want += ld.average() * len(pos); cnt += len(pos)
+        want /= cnt
+        ck.oracle_count("batch_history_average", 1, 1)
+        try:
+            got = b.average()
+            ok = len(b.molecules) == cnt and np.allclose(got, want, atol=1e-4)
+            detail = f"{len(b.molecules)} molecules (expected {cnt}); max deviation {np.abs(got - want).max():.3f}"
+        except Exception as e:  # noqa
+            ok, detail = False, f"raised {type(e).__name__}: {e}"
+        if not ok:
+            ck.violation(what=f"batch average after {hist} is not the count-weighted mean of the tomograms that were added: {detail}",
+                         inp={"history": hist}, key={"site": "batch-history", "auto_id_after_gap": any(h[0] == "filter-out" for h in hist)},
+                         oracle="batch_history_average")
+
+
 def run(ck: common.Check):
     ck.design_ref = "DESIGN.md §6 C09"
     ck.trusted_base = TB
@@ -168,6 +217,7 @@ def run(ck: common.Check):
     corr_splitter(ck, rng)
     corr_averages(ck, rng)
     oracle_generic(ck, rng)
+    oracle_batch_histories(ck, rng)
 
 
 def replay(data):
